@@ -302,7 +302,7 @@ def _check_one(i: int):
             cand_model = _model_to_text(s.model())
         except Exception:
             cand_model = None
-        s, r2 = _solve(ob, _AXIOMS, [], _TIMEOUT_MS)   # phase 2: with the quantified axioms
+        s, r2 = _solve(ob, _AXIOMS, [], min(_TIMEOUT_MS, 4000))   # phase 2: with the quantified axioms
         if r2 == z3.unknown:
             r = z3.sat
             solver = 'z3 (counter-model w.r.t. the ground instances of the quantified axioms)'
